@@ -202,12 +202,13 @@ func gate(k int) {}
 // enter logs the execution of the enclosing function (identified by its declaration line) and the line it was
 // called from.
 func enter() {
-	pc, _, _, ok := runtime.Caller(1)
+	pc, _, line, ok := runtime.Caller(1)
 	if !ok {
 		return
 	}
 	fn := runtime.FuncForPC(pc)
-	_, decl := fn.FileLine(fn.Entry())
+	// enter() is always the first statement of a generated function, on the line after its declaration
+	decl := line - 1
 	_, _, from, _ := runtime.Caller(2)
 	events = append(events, event{E: "enter", A: decl, B: from, S: fn.Name()})
 }
